@@ -21,7 +21,7 @@ WATCHDOG = {"quick": 900, "thorough": 3000}
 REQUIRED_CLASSES = {t: ["bins=1", "bins=2", "bins=101", "load_on_edge", "load_ulp_below_edge", "load_ulp_above_edge",
                         "load_zero", "load=+max", "load=-max", "load_above_max", "load_ulp_above_max", "negative_load",
                         "lookup:scalar", "lookup:series_plain_lut", "lookup:series_multi_lut", "branch:secondary",
-                        "law:neuber", "law:seegerbeste", "max_irrational"]
+                        "law:neuber", "law:seegerbeste", "max_irrational", "per_point:load_ratio>100"]
                     for t in ("quick", "thorough")}
 REQUIRED_MONITORS = ["contract:lookup==law_at_upper_edge", "contract:raises_above_max", "contract:no_raise_in_range",
                      "never_underestimates", "monotone", "less_than_one_class_off", "zero_load", "per_point_tables==single"]
@@ -271,7 +271,16 @@ def run_case(case, ctx):
         warnings.simplefilter("ignore")
         if mode == "series_multi":
             k = int(rng.integers(2, 5))
-            factors = np.array([1.0] + [float(2.0 ** int(rng.integers(-2, 3))) for _ in range(k - 1)])
+            wide = rng.random() < 0.3          # hardly loaded points beside a highly loaded one
+            factors = np.array([1.0] + [float(2.0 ** int(rng.integers(-10, 4) if wide else rng.integers(-2, 3))) for _ in range(k - 1)])
+            if wide and rng.random() < 0.5:
+                # the hardly loaded point first: everything below refers to the first point, so its maximum becomes
+                # `mx` and the others are expressed relative to it (the largest maximum stays what it was)
+                factors = factors[::-1].copy()
+                mx = float(mx * factors[0] / factors.max())
+                factors = factors / factors[0]
+            if factors.max() / factors.min() > 100:
+                ctx.tag("per_point:load_ratio>100")
             node_ids = (rng.permutation(k) + int(rng.integers(1, 50))).tolist()
             b = NAL.Binned(law, pd.Series(mx * factors, index=pd.Index(node_ids, name="node_id")), bins)
             singles = [NAL.Binned(law, float(mx * f), bins) for f in factors]
